@@ -1,6 +1,7 @@
 (** C15 -- fallible operations fail by value, not by panic or hang.
     Theorem-only file (written by tools/c15_mkprops.py): each theorem is closed by [exact] of a lemma of
-    Proofs/C15.v, Proofs/C15Owners.v or Proofs/C15Strftime.v and followed by [Print Assumptions].
+    Proofs/C15.v, Proofs/C15Owners.v, Proofs/C15Wide.v, Proofs/C15Text.v or Proofs/C15Strftime.v and followed by
+    [Print Assumptions].
 
     C15 is cross-cutting: its model is the union of all properties' models (Model/C15.v) and its
     theorems are corollaries of the owners' theorems (Props/C01.v ... Props/C19.v), restated in the one
@@ -14,12 +15,13 @@
         Proofs.C04.dtz_ok / ndt_ok / off_ok; Proofs.C06.valid; [time_valid] = Proofs.Time.tvalid).
 
     plus one dedicated proof (Proofs/C15Strftime.v): the slice-safety invariant of the format-string
-    iterator.  Theorems named *_partial exclude a stated sub-domain (the comment in front says which).
+    iterator.  Theorems named *_partial exclude a stated sub-domain (the comment in front says which); where the
+    owners' restrictions have been lifted since, the full statement stands next to the older partial one.
     Which inventory entries (gen/C15_inventory.json, printed in the evidence) have such a theorem and
     which are covered by correspondence + judge only is listed at the end of this file. *)
 From Coq Require Import ZArith List Bool String.
-From V Require Import Base.Int Base.IO Spec.Gregorian Model.Strftime Proofs.C15 Proofs.C15Owners Proofs.C15Strftime.
-From V Require Model.Date Model.Time Model.DateTime Model.TimeDelta Model.DateExtra Model.Parsed Model.Parse Model.Rfc3339 Model.C02 Model.C15 Model.C19 Gen.Strftime.
+From V Require Import Base.Int Base.IO Spec.Gregorian Model.Strftime Proofs.C15 Proofs.C15Owners Proofs.C15Strftime Proofs.C15Wide Proofs.C15Text.
+From V Require Model.Date Model.Time Model.DateTime Model.TimeDelta Model.DateExtra Model.Parsed Model.Parse Model.Rfc3339 Model.Show Model.Round Model.C02 Model.C15 Model.C19 Gen.Strftime.
 Import ListNotations.
 Open Scope Z_scope.
 
@@ -161,20 +163,44 @@ Theorem C15_tz_timestamp_total : forall off secs nsecs,
   returns (Model.C02.tz_timestamp_millis_opt off secs) /\ returns (Model.C02.tz_timestamp_micros off secs).
 Proof. exact tz_timestamp_total. Qed.
 Print Assumptions C15_tz_timestamp_total.
-(* PARTIAL: non-leap values (C02 covers second-59 leap values separately; a leap fraction on another second: correspondence + judge) *)
+(* EVERY well-formed date-time, a leap-second fraction on any second included: never a trap; a returned count is the instant and fits i64 (None exactly outside i64 on non-leap and second-59 values: C02_timestamp_nanos_opt_spec / _leap59) *)
+Theorem C15_timestamp_nanos_opt_total : forall a, 
+  Proofs.C04.ndt_ok a ->
+  returns (Model.DateTime.dt_timestamp_nanos_opt a) /\
+  forall st, Model.DateTime.dt_timestamp_nanos_opt a = Val (Some st) -> st = Proofs.C02.instant a /\ in_i64 st = true.
+Proof. exact timestamp_nanos_opt_full. Qed.
+Print Assumptions C15_timestamp_nanos_opt_total.
+(* the older form: non-leap values (kept under its name; superseded by C15_timestamp_nanos_opt_total) *)
 Theorem C15_timestamp_nanos_opt_total_partial : forall a, 
   Proofs.C02.valid_ndt a -> Proofs.C02.nonleap a ->
   returns (Model.DateTime.dt_timestamp_nanos_opt a).
 Proof. exact timestamp_nanos_opt_total. Qed.
 Print Assumptions C15_timestamp_nanos_opt_total_partial.
 
-(** ** Elapsed-time arithmetic (C03).  PARTIAL where named so: C03's exactness theorems are over non-leap values (its tvalid: frac < 10^9); leap-second operands are C07's (C07_ndt_leap_add_partial) and otherwise correspondence + judge *)
-Theorem C15_ndt_signed_total_partial : forall a d, 
-  Proofs.C03.nvalid a -> Proofs.C06.valid d ->
-  (returns (Model.DateTime.ndt_checked_add_signed a d) /\ forall b, Model.DateTime.ndt_checked_add_signed a d = Val (Some b) -> Proofs.C03.nvalid b) /\
-  (returns (Model.DateTime.ndt_checked_sub_signed a d) /\ forall b, Model.DateTime.ndt_checked_sub_signed a d = Val (Some b) -> Proofs.C03.nvalid b).
-Proof. exact ndt_signed_total. Qed.
-Print Assumptions C15_ndt_signed_total_partial.
+(** ** Elapsed-time arithmetic (C03 for non-leap values, C07's timeline theorems C07_ndt_leap_add / _sub for leap-second operands): EVERY well-formed date-time ([Proofs.C04.ndt_ok] / [dtz_ok]: nanosecond field < 2*10^9), every duration, every u64 day count; the result is well-formed again.  The forms named _partial are the older statements over non-leap values (C03's nvalid), kept under their names *)
+(* leap-second operands included *)
+Theorem C15_ndt_signed_total : forall a d, 
+  Proofs.C04.ndt_ok a -> Proofs.C06.valid d ->
+  (returns (Model.DateTime.ndt_checked_add_signed a d) /\ forall b, Model.DateTime.ndt_checked_add_signed a d = Val (Some b) -> Proofs.C04.ndt_ok b) /\
+  (returns (Model.DateTime.ndt_checked_sub_signed a d) /\ forall b, Model.DateTime.ndt_checked_sub_signed a d = Val (Some b) -> Proofs.C04.ndt_ok b).
+Proof. exact ndt_signed_full. Qed.
+Print Assumptions C15_ndt_signed_total.
+(* leap-second operands included; Days::new(u64::MAX) included *)
+Theorem C15_ndt_days_total : forall a n, 
+  Proofs.C04.ndt_ok a -> in_u64 n = true ->
+  (returns (Model.DateTime.ndt_checked_add_days a n) /\ forall b, Model.DateTime.ndt_checked_add_days a n = Val (Some b) -> Proofs.C04.ndt_ok b) /\
+  (returns (Model.DateTime.ndt_checked_sub_days a n) /\ forall b, Model.DateTime.ndt_checked_sub_days a n = Val (Some b) -> Proofs.C04.ndt_ok b).
+Proof. exact ndt_days_full. Qed.
+Print Assumptions C15_ndt_days_total.
+(* leap-second operands included; the offset is kept *)
+Theorem C15_dtz_signed_total : forall a d, 
+  Proofs.C04.dtz_ok a -> Proofs.C06.valid d ->
+  (returns (Model.DateTime.dz_checked_add_signed a d) /\
+   forall z, Model.DateTime.dz_checked_add_signed a d = Val (Some z) -> Model.DateTime.dz_off z = Model.DateTime.dz_off a /\ Proofs.C04.dtz_ok z) /\
+  (returns (Model.DateTime.dz_checked_sub_signed a d) /\
+   forall z, Model.DateTime.dz_checked_sub_signed a d = Val (Some z) -> Model.DateTime.dz_off z = Model.DateTime.dz_off a /\ Proofs.C04.dtz_ok z).
+Proof. exact dtz_signed_full. Qed.
+Print Assumptions C15_dtz_signed_total.
 (* Days::new(u64::MAX) included *)
 Theorem C15_date_days_total : forall d n, 
   Proofs.C03.vdate d -> in_u64 n = true ->
@@ -189,12 +215,21 @@ Theorem C15_date_signed_total : forall d x,
   (returns (Model.Date.checked_sub_signed d x) /\ forall y, Model.Date.checked_sub_signed d x = Val (Some y) -> Proofs.C03.vdate y).
 Proof. exact date_signed_total. Qed.
 Print Assumptions C15_date_signed_total.
+(* older form: non-leap values *)
+Theorem C15_ndt_signed_total_partial : forall a d, 
+  Proofs.C03.nvalid a -> Proofs.C06.valid d ->
+  (returns (Model.DateTime.ndt_checked_add_signed a d) /\ forall b, Model.DateTime.ndt_checked_add_signed a d = Val (Some b) -> Proofs.C03.nvalid b) /\
+  (returns (Model.DateTime.ndt_checked_sub_signed a d) /\ forall b, Model.DateTime.ndt_checked_sub_signed a d = Val (Some b) -> Proofs.C03.nvalid b).
+Proof. exact ndt_signed_total. Qed.
+Print Assumptions C15_ndt_signed_total_partial.
+(* older form: non-leap values *)
 Theorem C15_ndt_days_total_partial : forall a n, 
   Proofs.C03.nvalid a -> in_u64 n = true ->
   (returns (Model.DateTime.ndt_checked_add_days a n) /\ forall b, Model.DateTime.ndt_checked_add_days a n = Val (Some b) -> Proofs.C03.nvalid b) /\
   (returns (Model.DateTime.ndt_checked_sub_days a n) /\ forall b, Model.DateTime.ndt_checked_sub_days a n = Val (Some b) -> Proofs.C03.nvalid b).
 Proof. exact ndt_days_total. Qed.
 Print Assumptions C15_ndt_days_total_partial.
+(* older form: non-leap values *)
 Theorem C15_dtz_signed_total_partial : forall u off d, 
   Proofs.C03.nvalid u -> Proofs.C06.valid d ->
   (returns (Model.DateTime.dz_checked_add_signed (Model.DateTime.mk_dtz u off) d) /\
@@ -258,21 +293,42 @@ Theorem C15_ndt_offset_total : forall a off,
    forall b, Model.DateTime.ndt_checked_sub_offset a off = Val (Some b) -> Proofs.C04.ndt_ok b).
 Proof. exact ndt_offset_total. Qed.
 Print Assumptions C15_ndt_offset_total.
-(* PARTIAL: wall clock inside the NaiveDateTime range (gap: the two headroom dates; correspondence + judge there) *)
+(* with_year / with_month(0) / with_day(0) / with_ordinal(0) of DateTime: EVERY well-formed date-time, wall clock in the one-day headroom included (C04_replace_date_field) *)
+Theorem C15_dtz_with_date_field_total : forall field a x, 
+  Proofs.C04.dtz_ok a ->
+  0 <= field <= 6 -> (if field =? 0 then in_i32 x else in_u32 x) = true ->
+  returns (Model.DateTime.dz_with field a x) /\ forall z, Model.DateTime.dz_with field a x = Val (Some z) -> Proofs.C04.dtz_ok z.
+Proof. exact dtz_with_date_field_total. Qed.
+Print Assumptions C15_dtz_with_date_field_total.
+(* checked_add_days / checked_sub_days of DateTime: every well-formed date-time, headroom included (C04_add_days, C04_sub_days); Days::new(u64::MAX) included *)
+Theorem C15_dtz_days_total : forall a n, 
+  Proofs.C04.dtz_ok a -> in_u64 n = true ->
+  (returns (Model.DateTime.dz_checked_add_days a n) /\ forall z, Model.DateTime.dz_checked_add_days a n = Val (Some z) -> Proofs.C04.dtz_ok z) /\
+  (returns (Model.DateTime.dz_checked_sub_days a n) /\ forall z, Model.DateTime.dz_checked_sub_days a n = Val (Some z) -> Proofs.C04.dtz_ok z).
+Proof. exact dtz_days_total. Qed.
+Print Assumptions C15_dtz_days_total.
+(* checked_add_months / checked_sub_months of DateTime: every well-formed date-time, headroom included (C04_months); Months::new(u32::MAX) included *)
+Theorem C15_dtz_months_total : forall (add : bool) a m, 
+  Proofs.C04.dtz_ok a -> in_u32 m = true ->
+  let step := if add then Model.DateTime.dz_checked_add_months a m else Model.DateTime.dz_checked_sub_months a m in
+  returns step /\ forall z, step = Val (Some z) -> Proofs.C04.dtz_ok z.
+Proof. exact dtz_months_total. Qed.
+Print Assumptions C15_dtz_months_total.
+(* older form: wall clock inside the NaiveDateTime range *)
 Theorem C15_dtz_with_date_field_partial : forall field a x, 
   Proofs.C04.dtz_ok a -> Proofs.C04.in_rng (Proofs.C04.wall a) = true ->
   0 <= field <= 6 -> (if field =? 0 then in_i32 x else in_u32 x) = true ->
   returns (Model.DateTime.dz_with field a x) /\ forall z, Model.DateTime.dz_with field a x = Val (Some z) -> Proofs.C04.dtz_ok z.
 Proof. exact dtz_with_date_field_partial. Qed.
 Print Assumptions C15_dtz_with_date_field_partial.
-(* PARTIAL: as above *)
+(* older form: as above *)
 Theorem C15_dtz_days_partial : forall a n, 
   Proofs.C04.dtz_ok a -> Proofs.C04.in_rng (Proofs.C04.wall a) = true -> in_u64 n = true ->
   (returns (Model.DateTime.dz_checked_add_days a n) /\ forall z, Model.DateTime.dz_checked_add_days a n = Val (Some z) -> Proofs.C04.dtz_ok z) /\
   (returns (Model.DateTime.dz_checked_sub_days a n) /\ forall z, Model.DateTime.dz_checked_sub_days a n = Val (Some z) -> Proofs.C04.dtz_ok z).
 Proof. exact dtz_days_partial. Qed.
 Print Assumptions C15_dtz_days_partial.
-(* PARTIAL: as above; Months::new(u32::MAX) included *)
+(* older form: as above *)
 Theorem C15_dtz_months_partial : forall (add : bool) a m, 
   Proofs.C04.dtz_ok a -> Proofs.C04.in_rng (Proofs.C04.wall a) = true -> in_u32 m = true ->
   let step := if add then Model.DateTime.dz_checked_add_months a m else Model.DateTime.dz_checked_sub_months a m in
@@ -371,11 +427,24 @@ Theorem C15_weekday_month_from_str_total : forall s,
 Proof. exact weekday_month_from_str_total. Qed.
 Print Assumptions C15_weekday_month_from_str_total.
 
-(** ** Rounding (C17): DurationRound for NaiveDateTime ([Proofs.C17.ndt_op m] is duration_trunc / duration_round_up / duration_round of Model/Round.v).  C17 states its theorems modulo the exactness of checked_add_signed / checked_sub_signed / timestamp_nanos_opt ([ndt_links]); the premise is discharged here from C02 and C03.  PARTIAL: non-leap date-times (C03's domain); every span, TimeDelta::MIN / MAX / zero included: failure is by value.  DurationRound for DateTime (repaired f2640c4): correspondence + judge *)
+(** ** Rounding (C17): DurationRound for NaiveDateTime and for DateTime<Tz> ([Proofs.C17.ndt_op m] / [dz_op m] are duration_trunc / duration_round_up / duration_round of Model/Round.v; DateTime as repaired by f2640c4: the wall clock is read with overflowing_naive_local).  EVERY well-formed value, leap-second fractions included, every span (TimeDelta::MIN / MAX / zero included): the call returns -- an error value or a well-formed value.  C17's value theorems (C17_naive_value, C17_zoned_value ...) are over non-leap inputs, whose stamp moves exactly; for a leap-second input the helpers still return (Proofs/C15Wide.v: an i64 stamp pins the input within 106 753 days of the epoch, the amount added or subtracted is a positive span below 2^63 ns, and C07's timeline arithmetic succeeds there); a headroom wall clock has no i64 stamp: Err(TimestampExceedsLimit) *)
+Theorem C15_ndt_round_total : forall a d, 
+  Proofs.C04.ndt_ok a -> Proofs.C06.valid d ->
+  forall m, returns (Proofs.C17.ndt_op m a d) /\ forall r, Proofs.C17.ndt_op m a d = Val (inl r) -> Proofs.C04.ndt_ok r.
+Proof. exact ndt_round_full. Qed.
+Print Assumptions C15_ndt_round_total.
+(* DateTime<Tz>: duration_round / duration_trunc / duration_round_up *)
+Theorem C15_dtz_round_total : forall a d, 
+  Proofs.C04.dtz_ok a -> Proofs.C06.valid d ->
+  forall m, returns (Proofs.C17.dz_op m a d) /\ forall r, Proofs.C17.dz_op m a d = Val (inl r) -> Proofs.C04.dtz_ok r.
+Proof. exact dtz_round_total. Qed.
+Print Assumptions C15_dtz_round_total.
+(* the older route: C17 premise discharged from C02 and C03 for non-leap date-times *)
 Theorem C15_ndt_links_nonleap : 
   Proofs.C17.ndt_links Proofs.C03.inst Proofs.C03.nvalid.
 Proof. exact ndt_links_nonleap. Qed.
 Print Assumptions C15_ndt_links_nonleap.
+(* older form: non-leap date-times *)
 Theorem C15_ndt_round_total_partial : forall a d, 
   Proofs.C03.nvalid a -> Proofs.C06.valid d ->
   forall m, returns (Proofs.C17.ndt_op m a d) /\ forall r, Proofs.C17.ndt_op m a d = Val (inl r) -> Proofs.C03.nvalid r.
@@ -395,13 +464,50 @@ Theorem C15_parse_items_total_partial : forall items p s,
 Proof. exact parse_items_total. Qed.
 Print Assumptions C15_parse_items_total_partial.
 
-(** ** The RFC 3339 renderers (C10 writer domain) *)
-(* PARTIAL: whole-minute offsets, wall-clock year 0..9999, leap-second field only on second 59; elsewhere (both range ends seen through an offset: the repaired defect) correspondence + judge *)
+(** ** The RFC 3339 renderers never trap: EVERY well-formed date-time -- any year (the one-day headroom seen through an offset included: the repaired defect of to_rfc3339_opts), any offset (seconds included), leap-second fraction on any second -- and every SecondsFormat (0 Secs .. 4 AutoSi).  The writer is total (Proofs/C15Text.v on the writer lemmas of C09 / C10 / C20); what the text IS is C10's theorem on its writer domain (C10_writer_in_grammar) *)
+Theorem C15_to_rfc3339_total : forall a, 
+  Proofs.C04.dtz_ok a -> returns (Model.Rfc3339.to_rfc3339 a).
+Proof. exact to_rfc3339_total. Qed.
+Print Assumptions C15_to_rfc3339_total.
+Theorem C15_to_rfc3339_opts_total : forall a sf uz, 
+  Proofs.C04.dtz_ok a -> 0 <= sf <= 4 ->
+  returns (Model.Rfc3339.to_rfc3339_opts a sf uz).
+Proof. exact to_rfc3339_opts_total. Qed.
+Print Assumptions C15_to_rfc3339_opts_total.
+(* older form: C10 writer domain (whole-minute offsets, wall-clock year 0..9999, leap-second field only on second 59) *)
 Theorem C15_to_rfc3339_opts_total_partial : forall y o secs frac off sf uz a, 
   Model.DateTime.dec_dtz (Proofs.C10Main.value y o secs frac off) = Some a -> Proofs.C10Main.writer_domain y o secs frac off sf ->
   returns (Model.Rfc3339.to_rfc3339_opts a sf uz).
 Proof. exact to_rfc3339_opts_total_partial. Qed.
 Print Assumptions C15_to_rfc3339_opts_total_partial.
+
+(** ** Debug / Display of values never trap (to_string() / format!("{:?}") panic on a writer error: there is none): every valid NaiveDate, NaiveTime, NaiveDateTime (leap-second fractions included), every FixedOffset (seconds included), Utc, and every well-formed DateTime<Tz> ([utc] = true: Tz = Utc) -- wall clock in the one-day headroom included.  What the text IS: C09's shape theorems (C09_shape_date ...) on their domain *)
+Theorem C15_show_date_total : forall d, 
+  date_valid d -> returns (Model.Show.to_text (Model.Show.date_debug [] d)) /\ returns (Model.Show.to_text (Model.Show.date_display [] d)).
+Proof. exact show_date_total. Qed.
+Print Assumptions C15_show_date_total.
+Theorem C15_show_time_total : forall t, 
+  time_valid t -> returns (Model.Show.to_text (Model.Show.time_debug [] t)) /\ returns (Model.Show.to_text (Model.Show.time_display [] t)).
+Proof. exact show_time_total. Qed.
+Print Assumptions C15_show_time_total.
+Theorem C15_show_ndt_total : forall a, 
+  Proofs.C04.ndt_ok a -> returns (Model.Show.to_text (Model.Show.ndt_debug [] a)) /\ returns (Model.Show.to_text (Model.Show.ndt_display [] a)).
+Proof. exact show_ndt_total. Qed.
+Print Assumptions C15_show_ndt_total.
+Theorem C15_show_fixed_offset_total : forall off, 
+  Proofs.C04.off_ok off ->
+  returns (Model.Show.to_text (Model.Show.fixed_debug [] off)) /\ returns (Model.Show.to_text (Model.Show.fixed_display [] off)).
+Proof. exact show_fixed_offset_total. Qed.
+Print Assumptions C15_show_fixed_offset_total.
+Theorem C15_show_utc_total : 
+  returns (Model.Show.to_text (Model.Show.utc_debug [])) /\ returns (Model.Show.to_text (Model.Show.utc_display [])).
+Proof. exact show_utc_total. Qed.
+Print Assumptions C15_show_utc_total.
+Theorem C15_show_dtz_total : forall utc a, 
+  Proofs.C04.dtz_ok a ->
+  returns (Model.Show.to_text (Model.Show.dtz_debug utc [] a)) /\ returns (Model.Show.to_text (Model.Show.dtz_display utc [] a)).
+Proof. exact show_dtz_total. Qed.
+Print Assumptions C15_show_dtz_total.
 
 (** ** The format-string iterator NEVER TRAPS (dedicated proof, Proofs/C15Strftime.v: every slice of strftime.rs is taken at a character boundary of the well-formed input, the index arithmetic stays in usize, assert!(nextspec > 0) holds), strict or lenient, with or without the repair of error(); with C12's termination theorem: it yields a finite item list of at most 13 items per byte, and StrftimeItems::parse / parse_to_owned / count return *)
 Theorem C15_strftime_never_panics : forall s lenient fuel, 
@@ -450,6 +556,21 @@ Example C15_hypotheses_inhabited :
 Proof. exact hypotheses_inhabited. Qed.
 Print Assumptions C15_hypotheses_inhabited.
 
+(* ... and those of the full forms: [z_wide] = MAX_UTC's last second with a leap-second fraction seen from +02:00 (wall clock
+   one day outside the date range), [l_wide] = 2016-12-31T23:59:60.5 (Proofs/C15Text.v) *)
+Example C15_wide_hypotheses_inhabited :
+  Proofs.C04.dtz_ok z_wide /\ Proofs.C04.in_rng (Proofs.C04.wall z_wide) = false /\
+  Model.Rfc3339.to_rfc3339 z_wide = Val (B"+262143-01-01T01:59:60.999999999+02:00") /\
+  Model.Rfc3339.to_rfc3339_opts z_wide 1 true = Val (B"+262143-01-01T01:59:60.999+02:00") /\
+  Model.Show.to_text (Model.Show.dtz_display false [] z_wide) = Val (B"+262143-01-01 01:59:60.999999999 +02:00") /\
+  Proofs.C17.dz_op Proofs.C17.MRound z_wide (Model.TimeDelta.mk_td 3600 0) = Val (inr Model.Round.TimestampExceedsLimit) /\
+  Proofs.C04.ndt_ok l_wide /\
+  Model.DateTime.dt_timestamp_nanos_opt l_wide = Val (Some 1483228800500000000) /\
+  Proofs.C17.ndt_op Proofs.C17.MTrunc l_wide (Model.TimeDelta.mk_td 3600 0)
+    = Val (inl (Model.DateTime.mk_ndt Proofs.C07Ndt.leap_date (Model.Time.mk_time 86399 1000000000))).
+Proof. exact wide_hypotheses_inhabited. Qed.
+Print Assumptions C15_wide_hypotheses_inhabited.
+
 (** ** Inventory of the public fallible entry points (gen/C15_inventory.json) by kind of no-panic evidence
 
    THEOREM of this file:
@@ -467,6 +588,20 @@ Print Assumptions C15_hypotheses_inhabited.
        <NaiveDate as Datelike>::with_month0; <NaiveDate as Datelike>::with_day;
        <NaiveDate as Datelike>::with_day0; <NaiveDate as Datelike>::with_ordinal;
        <NaiveDate as Datelike>::with_ordinal0;
+     C15_dtz_days_total
+       DateTime<Tz>::checked_add_days; DateTime<Tz>::checked_sub_days;
+     C15_dtz_months_total
+       DateTime<Tz>::checked_add_months; DateTime<Tz>::checked_sub_months;
+     C15_dtz_round_total
+       <DateTime<Tz> as DurationRound>::duration_round; <DateTime<Tz> as DurationRound>::duration_trunc;
+       <DateTime<Tz> as DurationRound>::duration_round_up;
+     C15_dtz_signed_total
+       DateTime<Tz>::checked_add_signed; DateTime<Tz>::checked_sub_signed;
+     C15_dtz_with_date_field_total
+       <DateTime<Tz> as Datelike>::with_year; <DateTime<Tz> as Datelike>::with_month;
+       <DateTime<Tz> as Datelike>::with_month0; <DateTime<Tz> as Datelike>::with_day;
+       <DateTime<Tz> as Datelike>::with_day0; <DateTime<Tz> as Datelike>::with_ordinal;
+       <DateTime<Tz> as Datelike>::with_ordinal0;
      C15_dtz_with_time_field_total
        <DateTime<Tz> as Timelike>::with_hour; <DateTime<Tz> as Timelike>::with_minute;
        <DateTime<Tz> as Timelike>::with_second; <DateTime<Tz> as Timelike>::with_nanosecond;
@@ -492,10 +627,17 @@ Print Assumptions C15_hypotheses_inhabited.
        NaiveDate::from_yo_opt;
      C15_month_num_days_total
        Month::num_days;
+     C15_ndt_days_total
+       NaiveDateTime::checked_add_days; NaiveDateTime::checked_sub_days;
      C15_ndt_months_total
        NaiveDateTime::checked_add_months; NaiveDateTime::checked_sub_months;
      C15_ndt_offset_total
        NaiveDateTime::checked_add_offset; NaiveDateTime::checked_sub_offset;
+     C15_ndt_round_total
+       <NaiveDateTime as DurationRound>::duration_round; <NaiveDateTime as DurationRound>::duration_trunc;
+       <NaiveDateTime as DurationRound>::duration_round_up;
+     C15_ndt_signed_total
+       NaiveDateTime::checked_add_signed; NaiveDateTime::checked_sub_signed;
      C15_ndt_with_time_total
        <NaiveDateTime as Timelike>::with_hour; <NaiveDateTime as Timelike>::with_minute;
        <NaiveDateTime as Timelike>::with_second; <NaiveDateTime as Timelike>::with_nanosecond;
@@ -507,6 +649,18 @@ Print Assumptions C15_hypotheses_inhabited.
        Parsed::set_week_from_sun; Parsed::set_week_from_mon; Parsed::set_isoweek; Parsed::set_weekday;
        Parsed::set_ordinal; Parsed::set_day; Parsed::set_ampm; Parsed::set_hour12; Parsed::set_hour;
        Parsed::set_minute; Parsed::set_second; Parsed::set_nanosecond; Parsed::set_timestamp; Parsed::set_offset;
+     C15_show_date_total
+       <NaiveDate as fmt::Debug>::fmt; <NaiveDate as fmt::Display>::fmt;
+     C15_show_dtz_total
+       <DateTime<Tz> as fmt::Debug>::fmt; <DateTime<Tz> as fmt::Display>::fmt;
+     C15_show_fixed_offset_total
+       <FixedOffset as fmt::Debug>::fmt; <FixedOffset as fmt::Display>::fmt;
+     C15_show_ndt_total
+       <NaiveDateTime as fmt::Debug>::fmt; <NaiveDateTime as fmt::Display>::fmt;
+     C15_show_time_total
+       <NaiveTime as fmt::Debug>::fmt; <NaiveTime as fmt::Display>::fmt;
+     C15_show_utc_total
+       <Utc as fmt::Debug>::fmt; <Utc as fmt::Display>::fmt;
      C15_strftime_parse_total
        StrftimeItems<'a>::parse; StrftimeItems<'a>::parse_to_owned;
      C15_succ_pred_total
@@ -529,12 +683,18 @@ Print Assumptions C15_hypotheses_inhabited.
      C15_time_ctor_total
        NaiveTime::from_hms_opt; NaiveTime::from_hms_milli_opt; NaiveTime::from_hms_micro_opt;
        NaiveTime::from_hms_nano_opt;
+     C15_timestamp_nanos_opt_total
+       DateTime<Tz>::timestamp_nanos_opt;
      C15_to_naive_date_total
        Parsed::to_naive_date;
      C15_to_naive_datetime_with_offset_total
        Parsed::to_naive_datetime_with_offset;
      C15_to_naive_time_total
        Parsed::to_naive_time;
+     C15_to_rfc3339_opts_total
+       DateTime<Tz>::to_rfc3339_opts;
+     C15_to_rfc3339_total
+       DateTime<Tz>::to_rfc3339;
      C15_tz_timestamp_total
        TimeZone::timestamp_opt; TimeZone::timestamp_millis_opt; TimeZone::timestamp_micros;
      C15_week_total
@@ -554,30 +714,8 @@ Print Assumptions C15_hypotheses_inhabited.
        NaiveDate::years_since;
 
    PARTIAL theorem of this file (sub-domain stated at the theorem):
-     C15_dtz_days_partial
-       DateTime<Tz>::checked_add_days; DateTime<Tz>::checked_sub_days;
-     C15_dtz_months_partial
-       DateTime<Tz>::checked_add_months; DateTime<Tz>::checked_sub_months;
-     C15_dtz_signed_total_partial
-       DateTime<Tz>::checked_add_signed; DateTime<Tz>::checked_sub_signed;
-     C15_dtz_with_date_field_partial
-       <DateTime<Tz> as Datelike>::with_year; <DateTime<Tz> as Datelike>::with_month;
-       <DateTime<Tz> as Datelike>::with_month0; <DateTime<Tz> as Datelike>::with_day;
-       <DateTime<Tz> as Datelike>::with_day0; <DateTime<Tz> as Datelike>::with_ordinal;
-       <DateTime<Tz> as Datelike>::with_ordinal0;
-     C15_ndt_days_total_partial
-       NaiveDateTime::checked_add_days; NaiveDateTime::checked_sub_days;
-     C15_ndt_round_total_partial
-       <NaiveDateTime as DurationRound>::duration_round; <NaiveDateTime as DurationRound>::duration_trunc;
-       <NaiveDateTime as DurationRound>::duration_round_up;
-     C15_ndt_signed_total_partial
-       NaiveDateTime::checked_add_signed; NaiveDateTime::checked_sub_signed;
      C15_parse_items_total_partial
        parse::parse; parse::parse_and_remainder;
-     C15_timestamp_nanos_opt_total_partial
-       DateTime<Tz>::timestamp_nanos_opt;
-     C15_to_rfc3339_opts_total_partial
-       DateTime<Tz>::to_rfc3339_opts;
 
    OWNER's theorem states [= Val ...] for all typed arguments (not restated here):
      owner: C06_from_std
@@ -596,76 +734,103 @@ Print Assumptions C15_hypotheses_inhabited.
        <NaiveDateTime as Datelike>::with_month0; <NaiveDateTime as Datelike>::with_day;
        <NaiveDateTime as Datelike>::with_day0; <NaiveDateTime as Datelike>::with_ordinal;
        <NaiveDateTime as Datelike>::with_ordinal0;
+     owner: C14_to_fixed_offset_spec
+       Parsed::to_fixed_offset;
      owner: C19_members
        WeekdaySet::single_day; WeekdaySet::first; WeekdaySet::last;
+     owner: C19_set_display
+       <WeekdaySet as fmt::Display>::fmt;
+     owner: C19_wd_display
+       <Weekday as fmt::Display>::fmt;
+     owner: C20_delta_read_spec
+       <TimeDelta as Deserialize<'de>>::deserialize;
+     owner: C20_delta_roundtrip
+       <TimeDelta as Serialize>::serialize;
+     owner: C20_serde_roundtrip_date
+       <NaiveDate as ser::Serialize>::serialize;
+     owner: C20_serde_roundtrip_month
+       <Month as ser::Serialize>::serialize;
+     owner: C20_serde_roundtrip_weekday
+       <Weekday as ser::Serialize>::serialize;
+     owner: C20_serialize_dt_never_traps
+       <DateTime<Tz> as ser::Serialize>::serialize;
+     owner: C20_ts_deserialize_option_spec
+       serde::ts_nanoseconds_option::deserialize#1; serde::ts_microseconds_option::deserialize#1;
+       serde::ts_milliseconds_option::deserialize#1; serde::ts_seconds_option::deserialize#1;
+       serde::ts_nanoseconds_option::deserialize#2; serde::ts_microseconds_option::deserialize#2;
+       serde::ts_milliseconds_option::deserialize#2; serde::ts_seconds_option::deserialize#2;
+     owner: C20_ts_deserialize_spec
+       serde::ts_nanoseconds::deserialize#1; serde::ts_microseconds::deserialize#1;
+       serde::ts_milliseconds::deserialize#1; serde::ts_seconds::deserialize#1;
+       serde::ts_nanoseconds::deserialize#2; serde::ts_microseconds::deserialize#2;
+       serde::ts_milliseconds::deserialize#2; serde::ts_seconds::deserialize#2;
+
+   OWNER's theorem on a stated sub-domain (partial; elsewhere correspondence + judge):
+     owner-partial: C09_roundtrip_date
+       <NaiveDate as str::FromStr>::from_str;
+     owner-partial: C09_roundtrip_dt_fixed
+       <DateTime<FixedOffset> as str::FromStr>::from_str;
+     owner-partial: C09_roundtrip_dt_utc
+       <DateTime<Utc> as str::FromStr>::from_str;
+     owner-partial: C09_roundtrip_fixed_offset
+       <FixedOffset as FromStr>::from_str;
+     owner-partial: C09_roundtrip_ndt_debug
+       <NaiveDateTime as str::FromStr>::from_str;
+     owner-partial: C09_roundtrip_time
+       <NaiveTime as str::FromStr>::from_str;
+     owner-partial: C13_date_ymd_parse_from_str
+       NaiveDate::parse_from_str;
+     owner-partial: C13_time_hms_parse_from_str
+       NaiveTime::parse_from_str;
+     owner-partial: C20_serde_roundtrip_date
+       <NaiveDate as de::Deserialize<'de>>::deserialize;
+     owner-partial: C20_serde_roundtrip_dt_fixed
+       <DateTime<FixedOffset> as de::Deserialize<'de>>::deserialize;
+     owner-partial: C20_serde_roundtrip_dt_utc
+       <DateTime<Utc> as de::Deserialize<'de>>::deserialize;
+     owner-partial: C20_serde_roundtrip_month
+       <Month as de::Deserialize<'de>>::deserialize;
+     owner-partial: C20_serde_roundtrip_ndt
+       <NaiveDateTime as ser::Serialize>::serialize; <NaiveDateTime as de::Deserialize<'de>>::deserialize;
+     owner-partial: C20_serde_roundtrip_time
+       <NaiveTime as ser::Serialize>::serialize; <NaiveTime as de::Deserialize<'de>>::deserialize;
+     owner-partial: C20_serde_roundtrip_weekday
+       <Weekday as de::Deserialize<'de>>::deserialize;
+     owner-partial: C20_ts_serialize_option_spec
+       serde::ts_nanoseconds_option::serialize#1; serde::ts_microseconds_option::serialize#1;
+       serde::ts_milliseconds_option::serialize#1; serde::ts_seconds_option::serialize#1;
+       serde::ts_nanoseconds_option::serialize#2; serde::ts_microseconds_option::serialize#2;
+       serde::ts_milliseconds_option::serialize#2; serde::ts_seconds_option::serialize#2;
+     owner-partial: C20_ts_serialize_spec
+       serde::ts_nanoseconds::serialize#1; serde::ts_microseconds::serialize#1;
+       serde::ts_milliseconds::serialize#1; serde::ts_seconds::serialize#1; serde::ts_nanoseconds::serialize#2;
+       serde::ts_microseconds::serialize#2; serde::ts_milliseconds::serialize#2; serde::ts_seconds::serialize#2;
 
    correspondence + judge ONLY:
      none: C11_comment_total, C11_zone_scanner_total, C11_no_panic_on_grammar_partial are partial
        DateTime<FixedOffset>::parse_from_rfc2822;
      none: C12_format_spec covers the documented family; C15_strftime_never_panics covers the item iterator; formatting of arbitrary items: correspondence + judge
        DelayedFormat<I>::write_to; <DelayedFormat<I> as Display>::fmt;
-     none: C17 theorems are conditional on links to C03 (modulo_add_exact); correspondence + judge
-       <DateTime<Tz> as DurationRound>::duration_round; <DateTime<Tz> as DurationRound>::duration_trunc;
-       <DateTime<Tz> as DurationRound>::duration_round_up;
      none: constant (returns Single(self)); no trapping step in the model
        <FixedOffset as TimeZone>::offset_from_local_date; <FixedOffset as TimeZone>::offset_from_local_datetime;
        <Utc as TimeZone>::offset_from_local_date; <Utc as TimeZone>::offset_from_local_datetime;
-     none: correspondence + judge
-       <DateTime<Tz> as fmt::Debug>::fmt; <DateTime<Tz> as fmt::Display>::fmt; <NaiveDate as fmt::Debug>::fmt;
-       <NaiveDate as fmt::Display>::fmt; <NaiveDateTime as fmt::Debug>::fmt;
-       <NaiveDateTime as fmt::Display>::fmt; <NaiveTime as fmt::Debug>::fmt; <NaiveTime as fmt::Display>::fmt;
-       <FixedOffset as fmt::Debug>::fmt; <FixedOffset as fmt::Display>::fmt; <Utc as fmt::Debug>::fmt;
-       <Utc as fmt::Display>::fmt; <Weekday as fmt::Display>::fmt; <WeekdaySet as Debug>::fmt;
-       <WeekdaySet as fmt::Display>::fmt;
      none: field getters
        Parsed::year; Parsed::year_div_100; Parsed::year_mod_100; Parsed::isoyear; Parsed::isoyear_div_100;
        Parsed::isoyear_mod_100; Parsed::quarter; Parsed::month; Parsed::week_from_sun; Parsed::week_from_mon;
        Parsed::isoweek; Parsed::weekday; Parsed::ordinal; Parsed::day; Parsed::hour_div_12; Parsed::hour_mod_12;
        Parsed::minute; Parsed::second; Parsed::nanosecond; Parsed::timestamp; Parsed::offset;
      none: outside C15 stream
-       <DateTime<Tz> as ser::Serialize>::serialize; <DateTime<FixedOffset> as de::Deserialize<'de>>::deserialize;
-       <DateTime<Utc> as de::Deserialize<'de>>::deserialize; serde::ts_nanoseconds::serialize#1;
-       serde::ts_nanoseconds::deserialize#1; serde::ts_nanoseconds_option::serialize#1;
-       serde::ts_nanoseconds_option::deserialize#1; serde::ts_microseconds::serialize#1;
-       serde::ts_microseconds::deserialize#1; serde::ts_microseconds_option::serialize#1;
-       serde::ts_microseconds_option::deserialize#1; serde::ts_milliseconds::serialize#1;
-       serde::ts_milliseconds::deserialize#1; serde::ts_milliseconds_option::serialize#1;
-       serde::ts_milliseconds_option::deserialize#1; serde::ts_seconds::serialize#1;
-       serde::ts_seconds::deserialize#1; serde::ts_seconds_option::serialize#1;
-       serde::ts_seconds_option::deserialize#1; <ParseError as fmt::Display>::fmt;
-       <OutOfRange as fmt::Display>::fmt; <OutOfRange as fmt::Debug>::fmt;
+       <ParseError as fmt::Display>::fmt; <OutOfRange as fmt::Display>::fmt; <OutOfRange as fmt::Debug>::fmt;
        <ParseMonthError as fmt::Display>::fmt; <ParseMonthError as fmt::Debug>::fmt;
-       <Month as ser::Serialize>::serialize; <Month as de::Deserialize<'de>>::deserialize;
-       <NaiveDate as ser::Serialize>::serialize; <NaiveDate as de::Deserialize<'de>>::deserialize;
-       <NaiveDateTime as ser::Serialize>::serialize; <NaiveDateTime as de::Deserialize<'de>>::deserialize;
-       serde::ts_nanoseconds::serialize#2; serde::ts_nanoseconds::deserialize#2;
-       serde::ts_nanoseconds_option::serialize#2; serde::ts_nanoseconds_option::deserialize#2;
-       serde::ts_microseconds::serialize#2; serde::ts_microseconds::deserialize#2;
-       serde::ts_microseconds_option::serialize#2; serde::ts_microseconds_option::deserialize#2;
-       serde::ts_milliseconds::serialize#2; serde::ts_milliseconds::deserialize#2;
-       serde::ts_milliseconds_option::serialize#2; serde::ts_milliseconds_option::deserialize#2;
-       serde::ts_seconds::serialize#2; serde::ts_seconds::deserialize#2; serde::ts_seconds_option::serialize#2;
-       serde::ts_seconds_option::deserialize#2; <IsoWeek as fmt::Debug>::fmt;
-       <NaiveTime as ser::Serialize>::serialize; <NaiveTime as de::Deserialize<'de>>::deserialize;
-       <RoundingError as fmt::Display>::fmt; <OutOfRangeError as fmt::Display>::fmt;
-       <TimeDelta as Serialize>::serialize; <TimeDelta as Deserialize<'de>>::deserialize;
-       <ParseWeekdayError as fmt::Display>::fmt; <ParseWeekdayError as fmt::Debug>::fmt;
-       <Weekday as ser::Serialize>::serialize; <Weekday as de::Deserialize<'de>>::deserialize;
-     none: owner lemma Proofs/C10Writer.v to_rfc3339_ok (writer domain); correspondence + judge
-       DateTime<Tz>::to_rfc3339;
-     none: partial -- C13_rfc3339_relaxed_never_panics (owner), resolution step by correspondence + judge
-       <DateTime<Utc> as str::FromStr>::from_str; <DateTime<FixedOffset> as str::FromStr>::from_str;
-     none: partial -- C13_timezone_offset_never_panics (owner); correspondence + judge
-       <FixedOffset as FromStr>::from_str;
-     none: partial -- C15_parse_items_total_partial (fixed item lists), resolution by C15_to_naive_date_total / C15_to_naive_time_total; composition: correspondence + judge
-       <NaiveDate as str::FromStr>::from_str; <NaiveDateTime as str::FromStr>::from_str;
-       <NaiveTime as str::FromStr>::from_str;
+       <IsoWeek as fmt::Debug>::fmt; <RoundingError as fmt::Display>::fmt;
+       <OutOfRangeError as fmt::Display>::fmt; <ParseWeekdayError as fmt::Display>::fmt;
+       <ParseWeekdayError as fmt::Debug>::fmt; <WeekdaySet as Debug>::fmt;
      none: partial -- C15_strftime_never_panics (item iterator) and C15_parse_items_total_partial (item reader); their lazy composition and the resolution step: correspondence + judge
        DateTime<FixedOffset>::parse_from_str; DateTime<FixedOffset>::parse_and_remainder;
-       NaiveDate::parse_from_str; NaiveDate::parse_and_remainder; NaiveDateTime::parse_from_str;
-       NaiveDateTime::parse_and_remainder; NaiveTime::parse_from_str; NaiveTime::parse_and_remainder;
+       NaiveDate::parse_and_remainder; NaiveDateTime::parse_from_str; NaiveDateTime::parse_and_remainder;
+       NaiveTime::parse_and_remainder;
      none: partial -- goes through C15_to_naive_datetime_with_offset_total; the final zone step: correspondence + judge
-       Parsed::to_fixed_offset; Parsed::to_datetime; Parsed::to_datetime_with_timezone;
+       Parsed::to_datetime; Parsed::to_datetime_with_timezone;
      none: pattern match only; no trapping step in the model
        MappedLocalTime<T>::single; MappedLocalTime<T>::earliest; MappedLocalTime<T>::latest;
 
